@@ -10,7 +10,7 @@ ROOT = os.path.dirname(os.path.dirname(os.path.abspath(__file__)))
 sys.path.insert(0, ROOT)
 import propmap  # noqa: E402
 
-RELATED = {'C18-2': ['C01', 'C02'], 'C02-1': ['C02', 'C03'], 'C08-2': ['C08', 'C13'], 'C05-1': ['C05', 'C04', 'C01'], 'C01-1': ['C01', 'C04', 'C05'],
+RELATED = {'C18-2': ['C18', 'C01', 'C02'], 'C02-1': ['C02', 'C03'], 'C08-2': ['C08', 'C13'], 'C05-1': ['C05', 'C04', 'C01'], 'C01-1': ['C01', 'C04', 'C05'],
            'C09-1': ['C09', 'C06', 'C02'], 'C04-1': ['C04', 'C01'], 'C11-1': ['C11', 'C19'], 'C19-1': ['C19', 'C11'], 'C02-2': ['C02', 'C01'],
            'C06-1': ['C06'], 'C01-2': ['C01'], 'C18-1': ['C18', 'C11'], 'C11-2': ['C11'],
            'C07-2': ['C07', 'C01'], 'C04-5': ['C04', 'C01'], 'C08-5': ['C08', 'C04', 'C01'], 'C08-6': ['C08', 'C11'], 'C01-5': ['C01', 'C04'], 'C01-6': ['C01', 'C03'], 'C09-5': ['C09', 'C02', 'C01'],
